@@ -166,6 +166,16 @@ def main(tier, seed):
                                "e%d" % (i + 1)])
     for vi, (name, exe, extra) in enumerate(variants):
         jobs.append((w_hist, (exe, dup, dprogs, extra, "near-duplicates")))
+    # one object, 66 000 validations in a row (a call counter of 8 or 16 bits wraps, per-call growth adds up: the ledger is read after every
+    # call), with a settings change and an errstr now and then
+    n_long = 66000 if tier == "quick" else 140000
+    for m in (3, 1):
+        p = ["r%d" % m, "s"]
+        for i in range(n_long):
+            p.append("e%d" % (i % len(HM.POOL7)))
+            if i % 997 == 0:
+                p += ["t%d" % ((i // 997) % 2), "m"]
+        jobs.append((w_hist, (variants[0][1], HM.POOL7, [p], False, "long-run", cold)))
     # memcheck pass on an uninstrumented build (definedness of every observed field)
     plain = cx.exe("plain-O0-hist", driver=("drv/hist.c",), san="plain-O0")
     r = random.Random(seed * 4099)
